@@ -113,6 +113,16 @@ def accessCmd : List String → String
     | _, _, _, _, _, _, _, _, _ => "bad-op"
   | _ => "bad-op"
 
+/-- ACCESS on an export with a squash mode: the credential as sent is squashed (C10), then judged (C12) -/
+def accessqCmd : List String → String
+  | [sq, mode, d, eu, eg, aux, fu, fg, mask] =>
+    match parseOct mode, d.toNat?, eu.toNat?, eg.toNat?, parseNatList aux, fu.toNat?, fg.toNat?, mask.toNat? with
+    | some mode, some d, some eu, some eg, some aux, some fu, some fg, some mask =>
+      let id := squash (squashMode sq.toUTF8.toList) { uid := eu, gid := eg, aux := aux }
+      toString (accessReply mode (d == 1) false id.uid id.gid id.aux fu fg mask)
+    | _, _, _, _, _, _, _, _ => "bad-op"
+  | _ => "bad-op"
+
 def parseClient (s : String) : Option (Option IP) :=
   if s = "bad" then some none
   else match s.splitOn ":" with
@@ -745,6 +755,7 @@ def step (st : St) (line : String) : St × String :=
   | "rm" :: args => (st, rmCmd args)
   | "wire" :: args => (st, wireCmd args)
   | "access" :: args => (st, accessCmd args)
+  | "accessq" :: args => (st, accessqCmd args)
   | "auth" :: args => (st, authCmd args)
   | "handles" :: args => handlesCmd st args
   | "lru" :: args => lruCmd st args
